@@ -72,7 +72,7 @@ def enum_sequences(meta, tier, variant, sel):
     for mem in itertools.product(members, repeat=k):
         if not any(mem):
             continue
-        for bnd in itertools.product(bounds, repeat=k if variant != 'mon' else k - 1):
+        for bnd in itertools.product(bounds, repeat=k if variant not in ('mon', 'monu') else k - 1):
             for calls in itertools.product(range(k), repeat=slen):
                 altshape = not altshape
                 if sel.skip(): continue
@@ -83,8 +83,12 @@ def enum_sequences(meta, tier, variant, sel):
                 ops.append(('seq', s[0])); ops.append(('seq', s[1]))
                 exps, watched = [], None
                 kinds = []
+                if variant == 'monu':
+                    # an older unsequenced catch-all: every call is also accepted by it, the sequenced one must win
+                    shu, slotu = c.slot('f_allow'); eu = c.id()
+                    ops.append(('exp', eu, shu, slotu, o, dict(mask=15, val=0))); exps.append(eu)
                 for i in range(k):
-                    if variant == 'mon' and i == k - 1:
+                    if variant in ('mon', 'monu') and i == 1:
                         w = c.id(); ops.append(('obj', w, 'P'))
                         site = [st for st in meta['mon_sites'] if st['cls'] == 'P' and st['nseq'] == len(mem[i])][0]
                         e = c.id()
@@ -95,7 +99,8 @@ def enum_sequences(meta, tier, variant, sel):
                         table = SEQ_SHAPE_ALT if altshape else SEQ_SHAPE
                         sh, slot = c.slot(table[len(mem[i])])
                         e = c.id()
-                        p = dict(mask=masks[i], lo=bnd[i][0], hi=bnd[i][1], val=0)
+                        bi = len([x for x in kinds if x == 'exp'])
+                        p = dict(mask=masks[i], lo=bnd[bi][0], hi=bnd[bi][1], val=0)
                         for j, sj in enumerate(mem[i]):
                             p['s%d' % j] = s[sj]
                         ops.append(('exp', e, sh, slot, o, p))
@@ -684,6 +689,7 @@ ENUMS = {
     'seq_own': lambda m, t, sel: enum_sequences(m, t, 'own', sel),
     'seq_overlap': lambda m, t, sel: enum_sequences(m, t, 'overlap', sel),
     'seq_mon': lambda m, t, sel: enum_sequences(m, t, 'mon', sel),
+    'seq_monu': lambda m, t, sel: enum_sequences(m, t, 'monu', sel),
     'seq_teardown': enum_seq_teardown,
     'bounds': enum_bounds,
     'lifetime': enum_lifetime,
@@ -698,7 +704,7 @@ ENUMS = {
 # property -> enumerators run in addition to the random histories
 PLAN = {
     'C01': ['accept', 'forbid'],
-    'C02': ['seq_overlap', 'seq_rank', 'forbid'],
+    'C02': ['seq_overlap', 'seq_rank', 'seq_monu', 'forbid'],
     'C03': ['bounds'],
     'C04': ['lifetime', 'bounds'],
     'C05': ['seq_own', 'seq_mon', 'seq_overlap', 'seq_rank'],
